@@ -56,6 +56,24 @@ func GenSeq(t *rapid.T) *SeqCase {
 			}
 		}
 	}
+	// a third of the histories let Once handlers unsubscribe themselves while
+	// they run (at most four per type: each needs a function of its own, and
+	// no other registration may share it, so they are never armed)
+	if rapid.IntRange(0, 2).Draw(t, "quitting") == 0 {
+		slots := [2]int{}
+		for i := range c.Handlers {
+			h := &c.Handlers[i]
+			if h.Once && slots[h.T] < 4 && rapid.IntRange(0, 2).Draw(t, "quits") != 0 {
+				slots[h.T]++
+				h.Quits, h.Ctx = slots[h.T], false
+			}
+		}
+		for i := range c.Handlers {
+			if a := c.Handlers[i].Arms; a > 0 && c.Handlers[a-1].Quits > 0 {
+				c.Handlers[i].Arms = 0
+			}
+		}
+	}
 	subbed := 0
 	n := rapid.IntRange(1, 25).Draw(t, "nsteps")
 	if nh > 6 {
